@@ -1,0 +1,147 @@
+// Copyright 2025 CloudWeGo Authors
+//
+// Licensed under the Apache License, Version 2.0 (the "License");
+// you may not use this file except in compliance with the License.
+// You may obtain a copy of the License at
+//
+//     http://www.apache.org/licenses/LICENSE-2.0
+//
+// Unless required by applicable law or agreed to in writing, software
+// distributed under the License is distributed on an "AS IS" BASIS,
+// WITHOUT WARRANTIES OR CONDITIONS OF ANY KIND, either express or implied.
+// See the License for the specific language governing permissions and
+// limitations under the License.
+
+//go:build verif
+
+package netpoll
+
+// Contract variants for the closed state (property C12): the same function bodies are verified a second time under the precondition that the
+// buffer has been closed (closedbuf) / the connection has been closed locally and is quiescent.  A variant `F @closed` is never applied at
+// ordinary call sites; only the variants that name it in a `uses` clause call it.
+
+// ---- a closed LinkBuffer answers every Reader call without panicking ----
+//@ func (*UnsafeLinkBuffer).Next @closed
+//@   property C12
+//@   requires closedbuf(b)
+//@   ensures closedbuf(b) && (n > 0 ==> err != nil) && (n <= 0 ==> err == nil) && len(p) == 0
+//@ func (*UnsafeLinkBuffer).Peek @closed
+//@   property C12
+//@   requires closedbuf(b)
+//@   ensures closedbuf(b) && (n > 0 ==> err != nil) && (n <= 0 ==> err == nil) && len(p) == 0
+//@ func (*UnsafeLinkBuffer).Skip @closed
+//@   property C12
+//@   requires closedbuf(b)
+//@   ensures closedbuf(b) && (n > 0 ==> err != nil) && (n <= 0 ==> err == nil)
+//@ func (*UnsafeLinkBuffer).ReadString @closed
+//@   property C12
+//@   requires closedbuf(b)
+//@   ensures closedbuf(b) && (n > 0 ==> err != nil) && (n <= 0 ==> err == nil) && len(s) == 0
+//@ func (*UnsafeLinkBuffer).ReadBinary @closed
+//@   property C12
+//@   requires closedbuf(b)
+//@   ensures closedbuf(b) && (n > 0 ==> err != nil) && (n <= 0 ==> err == nil) && len(p) == 0
+//@ func (*UnsafeLinkBuffer).ReadByte @closed
+//@   property C12
+//@   requires closedbuf(b)
+//@   ensures closedbuf(b) && err != nil
+//@ func (*UnsafeLinkBuffer).Release @closed
+//@   property C12
+//@   requires closedbuf(b)
+//@   ensures closedbuf(b) && err == nil
+//@   modifies b.caches
+//@   loop 1 invariant closedbuf(b)
+//@   loop 2 invariant closedbuf(b)
+//@   loop 3 invariant closedbuf(b) && -1 <= rangeindex
+//@ func (*UnsafeLinkBuffer).indexByte @closed
+//@   property C12
+//@   requires closedbuf(b)
+//@   ensures closedbuf(b) && result == -1
+//@   loop 1 invariant closedbuf(b) && size == 0 && unread == 0
+//@ func (*UnsafeLinkBuffer).Slice @closed
+//@   property C12
+//@   requires closedbuf(b)
+//@   ensures closedbuf(b) && (n > 0 ==> err != nil) && (n <= 0 ==> err == nil)
+//@   modifies pool, blknode, cacheown, peekown, linkBufferNode.own, linkBufferNode.ord, linkBufferNode.sp
+
+// ---- a locally closed, quiescent connection: Reader calls return ErrConnClosed, never block, never panic ----
+//@ pred cclosed(c *connection) = connok(c) && closedbuf(c.inputBuffer) && c.keychain[closing] == 1 && (c.readTimer != nil ==> c.readTimer.tstate == 0)
+//@ func (*connection).waitReadWithTimeout @closed
+//@   property C12
+//@   requires cclosed(c) && !wrBlocked
+//@   ensures cclosed(c) && (n > 0 ==> errkind(err, ErrConnClosed)) && (n <= 0 ==> err == nil) && !wrBlocked
+//@   modifies c.readTimer, time.Timer.tstate
+//@   ghost before recv readTrigger#1: wrBlocked = true
+//@   loop 1 invariant connok(c) && closedbuf(c.inputBuffer) && c.keychain[closing] == 1 && c.readTimer != nil && c.readTimer.tstate == 1 && err == nil && !wrBlocked
+//@ func (*connection).waitRead @closed
+//@   property C12
+//@   uses (*connection).waitReadWithTimeout @closed
+//@   requires cclosed(c) && !wrBlocked
+//@   ensures cclosed(c) && (n > 0 ==> errkind(err, ErrConnClosed)) && (n <= 0 ==> err == nil) && !wrBlocked
+//@   modifies c.waitReadSize, c.readTimer, time.Timer.tstate
+//@   ghost before recv readTrigger#1: wrBlocked = true
+//@   loop 1 invariant cclosed(c) && !wrBlocked
+//@ func (*connection).Next @closed
+//@   property C12
+//@   uses (*connection).waitRead @closed, (*UnsafeLinkBuffer).Next @closed
+//@   requires cclosed(c) && !wrBlocked
+//@   ensures cclosed(c) && (n > 0 ==> errkind(err, ErrConnClosed)) && (n <= 0 ==> err == nil) && !wrBlocked
+//@   modifies c.waitReadSize, c.readTimer, time.Timer.tstate
+//@ func (*connection).Peek @closed
+//@   property C12
+//@   uses (*connection).waitRead @closed, (*UnsafeLinkBuffer).Peek @closed
+//@   requires cclosed(c) && !wrBlocked
+//@   ensures cclosed(c) && (n > 0 ==> errkind(err, ErrConnClosed)) && (n <= 0 ==> err == nil) && !wrBlocked
+//@   modifies c.waitReadSize, c.readTimer, time.Timer.tstate
+//@ func (*connection).Skip @closed
+//@   property C12
+//@   uses (*connection).waitRead @closed, (*UnsafeLinkBuffer).Skip @closed
+//@   requires cclosed(c) && !wrBlocked
+//@   ensures cclosed(c) && (n > 0 ==> errkind(err, ErrConnClosed)) && (n <= 0 ==> err == nil) && !wrBlocked
+//@   modifies c.waitReadSize, c.readTimer, time.Timer.tstate
+//@ func (*connection).ReadString @closed
+//@   property C12
+//@   uses (*connection).waitRead @closed, (*UnsafeLinkBuffer).ReadString @closed
+//@   requires cclosed(c) && !wrBlocked
+//@   ensures cclosed(c) && (n > 0 ==> errkind(err, ErrConnClosed)) && (n <= 0 ==> err == nil) && !wrBlocked
+//@   modifies c.waitReadSize, c.readTimer, time.Timer.tstate
+//@ func (*connection).ReadBinary @closed
+//@   property C12
+//@   uses (*connection).waitRead @closed, (*UnsafeLinkBuffer).ReadBinary @closed
+//@   requires cclosed(c) && !wrBlocked
+//@   ensures cclosed(c) && (n > 0 ==> errkind(err, ErrConnClosed)) && (n <= 0 ==> err == nil) && !wrBlocked
+//@   modifies c.waitReadSize, c.readTimer, time.Timer.tstate
+//@ func (*connection).ReadByte @closed
+//@   property C12
+//@   uses (*connection).waitRead @closed, (*UnsafeLinkBuffer).ReadByte @closed
+//@   requires cclosed(c) && !wrBlocked
+//@   ensures cclosed(c) && errkind(err, ErrConnClosed) && !wrBlocked
+//@   modifies c.waitReadSize, c.readTimer, time.Timer.tstate
+//@ func (*connection).Slice @closed
+//@   property C12
+//@   uses (*connection).waitRead @closed, (*UnsafeLinkBuffer).Slice @closed
+//@   requires cclosed(c) && !wrBlocked
+//@   ensures cclosed(c) && (n > 0 ==> errkind(err, ErrConnClosed)) && (n <= 0 ==> err == nil) && !wrBlocked
+//@   modifies c.waitReadSize, c.readTimer, time.Timer.tstate, pool, blknode, cacheown, peekown, linkBufferNode.own, linkBufferNode.ord, linkBufferNode.sp
+//@ func (*connection).Until @closed
+//@   property C12
+//@   uses (*connection).waitRead @closed, (*UnsafeLinkBuffer).Next @closed, (*UnsafeLinkBuffer).indexByte @closed
+//@   requires cclosed(c) && !wrBlocked
+//@   ensures cclosed(c) && errkind(err, ErrConnClosed) && len(line) == 0 && !wrBlocked
+//@   modifies c.waitReadSize, c.readTimer, time.Timer.tstate
+//@   loop 1 invariant cclosed(c) && !wrBlocked && n == 0
+// Release on a closed connection: must not panic and must not keep a slot token (C10: the slot may already belong to another connection)
+//@ func (*connection).Release @closed
+//@   property C10 C12
+//@   uses (*UnsafeLinkBuffer).Release @closed
+//@   requires cclosed(c) && forall o *FDOperator :: !o.opheld
+//@   ensures cclosed(c) && err == nil && forall o *FDOperator :: !o.opheld
+//@   onpanic forall o *FDOperator :: !o.opheld
+//@   modifies c.maxSize, FDOperator.state, FDOperator.opheld, c.inputBuffer.caches
+
+// ---- error matching: an end-of-stream error matches both ErrEOF and ErrConnClosed ----
+//@ func (*exception).Is
+//@   property C12
+//@   requires e != nil
+//@   ensures e.no == ErrEOF && (target == iface(ErrEOF) || target == iface(ErrConnClosed)) ==> result
+//@   ensures e.no == ErrConnClosed && target == iface(ErrConnClosed) ==> result
